@@ -31,6 +31,9 @@ E = 'ml_pipeline_engine/events.py'
 G = 'ml_pipeline_engine/dag/graph.py'
 R = 'ml_pipeline_engine/node/retrying.py'
 TH = 'ml_pipeline_engine/parallelism/threads.py'
+PB = 'ml_pipeline_engine/parallelism/basic.py'
+PP = 'ml_pipeline_engine/parallelism/processes.py'
+SC = 'ml_pipeline_viewer/visualization/schema.py'
 
 # (id, [(file, old, new)], [(property, rule)])
 MUTANTS: List[Tuple[str, List[Tuple[str, str, str]], List[Tuple[str, str]]]] = [
@@ -49,7 +52,7 @@ MUTANTS: List[Tuple[str, List[Tuple[str, str, str]], List[Tuple[str, str]]]] = [
     ('wk-h-notify-one', [(M, "condition.notify_all()", "condition.notify()")], [('C02', 'WK-h')]),
     ('wk-k-event-not-set-on-recurrent', [(M, "                logger.debug('Skip unlocking the descendants of the node, node_id=%s', node_id)\n                self.__unlock_execution_lock(node_id)\n",
                                             "                logger.debug('Skip unlocking the descendants of the node, node_id=%s', node_id)\n")], [('C02', 'WK-k'), ('C04', 'WK-k')]),
-    ('er5-unguarded-label', [(M, "        if selected_branch_label not in branch_nodes:\n            raise SwitchCaseDoesNotHaveBranchError(\n                f'The switch {switch_node_id} does not have a branch for the label {selected_branch_label!r}',\n            )\n\n", "")],
+    ('er5-unguarded-label', [(M, "        if not has_branch:\n            raise SwitchCaseDoesNotHaveBranchError(\n                f'The switch {switch_node_id} does not have a branch for the label {selected_branch_label!r}',\n            )\n\n", "")],
      [('C05', 'ER-5'), ('C09', 'ER-5'), ('C02', 'ER-5')]),
     ('st1-set-keeps-hidden', [(S, "        if key in self._hidden_keys:\n            self._hidden_keys.remove(key)\n\n        self[key] = value", "        self[key] = value")], [('C02', 'ST-1'), ('C11', 'ST-1')]),
     ('rd2-ready-ignores-recurrent', [(M, "                not self._node_storage.exists_node_result(pred_node_id)\n                # The node cannot be executed if there is a \"Recurrent\" result in the node's dependencies.\n                # Hence, the node should wait for proper a result or an error.\n                or isinstance(self._node_storage.get_node_result(pred_node_id), Recurrent)",
@@ -60,10 +63,10 @@ MUTANTS: List[Tuple[str, List[Tuple[str, str, str]], List[Tuple[str, str]]]] = [
                                  "            if dag.is_oneof and self.__has_subgraph_error(dag):")], [('C03', 'RD-1')]),
     ('rd3-builder-key-mismatch', [(B, "**{EdgeField.case_branch: case_branch},", "**{'case': case_branch},")], [('C03', 'RD-3'), ('C15', 'RD-3'), ('C09', 'SW-6')]),
     ('rd4-input-kwargs-empty', [(M, "            kwargs = dict(self.ctx.input_kwargs)", "            kwargs = dict(self.ctx.meta)")], [('C03', 'RD-4')]),
-    ('sw3-no-indirection-in-kwargs', [(M, "                if self._is_switch(pred_node_id):\n                    kwargs[kwarg_name] = self._node_storage.get_node_result(\n                        self._node_storage.get_switch_result(pred_node_id).node_id,\n                        with_hidden=True,\n                    )\n\n                else:\n                    kwargs[kwarg_name]",
+    ('sw3-no-indirection-in-kwargs', [(M, "                if self._is_switch(pred_node_id):\n                    kwargs[kwarg_name] = self._node_storage.get_node_result(\n                        # The verdict is read the same way as the results below: a re-iteration may have hidden it\n                        # after the node has been released\n                        self._node_storage.get_switch_result(pred_node_id, with_hidden=True).node_id,\n                        with_hidden=True,\n                    )\n\n                else:\n                    kwargs[kwarg_name]",
                                         "                if True:\n                    kwargs[kwarg_name]")], [('C03', 'SW-3'), ('C09', 'SW-3')]),
     ('sw4-hide-forgets-switch', [(S, "            self.hide_switch_result(node_id)\n", "")], [('C09', 'SW-4'), ('C11', 'SW-4')]),
-    ('sw1-filter-edge-inverted', [(M, "            return not self.dag.graph.edges[u, v].get(EdgeField.case_branch)", "            return not self.dag.graph.edges[u, v].get(EdgeField.is_switch)")], [('C09', 'SW-1')]),
+    ('sw1-filter-edge-inverted', [(M, "            return EdgeField.case_branch not in self.dag.graph.edges[u, v]", "            return EdgeField.is_switch not in self.dag.graph.edges[u, v]")], [('C09', 'SW-1')]),
     ('sw1-node-filter-dropped', [(M, "filter_edge=_filter, filter_node=_filter_node),", "filter_edge=_filter),")], [('C10', 'SW-1')]),
     ('on1-mark-after-await', [(M, "        self._node_storage.set_node_as_processed(node_id)\n        await self.ctx.emit_on_node_start(node_id=node_id)",
                                 "        await self.ctx.emit_on_node_start(node_id=node_id)\n        self._node_storage.set_node_as_processed(node_id)")], [('C04', 'ON-1')]),
@@ -88,9 +91,9 @@ MUTANTS: List[Tuple[str, List[Tuple[str, str, str]], List[Tuple[str, str]]]] = [
     ('sh1-additional-data-on-graph', [(M, "            self._additional_data[start_from_node_id] = node_result.data", "            self.dag.graph.nodes[start_from_node_id][NodeField.additional_data] = node_result.data\n            self._additional_data[start_from_node_id] = node_result.data")], [('C07', 'SH-1'), ('C08', 'SH-1'), ('C11', 'SH-1')]),
     ('sh2-shared-default-store', [(M, "    _node_storage: DAGNodeStorage = field(default_factory=DAGNodeStorage)", "    _node_storage: DAGNodeStorage = DAGNodeStorage()")], [('C07', 'SH-2'), ('C08', 'SH-2')]),
     ('sh5-cache-on-dag', [(M, "@cachedmethod(lambda self: self._memorization_store,", "@cachedmethod(lambda self: self.dag.__dict__.setdefault('_cache', {}),")], [('C07', 'SH-5'), ('C08', 'SH-5')]),
-    ('sh3-global-registry-write', [(M, "        task = asyncio.create_task(coro, name=name)\n        self._coro_tasks.add(task)", "        task = asyncio.create_task(coro, name=name)\n        self._coro_tasks.add(task)\n        _ALL_TASKS.append(task)"),
+    ('sh3-global-registry-write', [(M, "        task = asyncio.create_task(coro, name=name)\n        self._coro_tasks.append(task)", "        task = asyncio.create_task(coro, name=name)\n        self._coro_tasks.append(task)\n        _ALL_TASKS.append(task)"),
                                    (M, "_EventDictT = t.Dict[t.Any, asyncio.Event]", "_ALL_TASKS: list = []\n_EventDictT = t.Dict[t.Any, asyncio.Event]")], [('C07', 'SH-3'), ('C08', 'SH-3')]),
-    ('lk1-task-not-registered', [(M, "        task = asyncio.create_task(coro, name=name)\n        self._coro_tasks.add(task)\n", "        task = asyncio.create_task(coro, name=name)\n")], [('C13', 'LK-1')]),
+    ('lk1-task-not-registered', [(M, "        task = asyncio.create_task(coro, name=name)\n        self._coro_tasks.append(task)\n", "        task = asyncio.create_task(coro, name=name)\n")], [('C13', 'LK-1')]),
     ('lk2-no-finally-stop', [(M, "        finally:\n            self._stop_coro_tasks(*self._coro_tasks)", "        finally:\n            logger.debug('run finished')")], [('C13', 'LK-2')]),
     ('lk2-stop-only-on-error', [(M, "            logger.error('DAG run raised error', exc_info=ex)\n            raise\n        finally:\n            self._stop_coro_tasks(*self._coro_tasks)",
                                   "            logger.error('DAG run raised error', exc_info=ex)\n            self._stop_coro_tasks(*self._coro_tasks)\n            raise")], [('C13', 'LK-2')]),
@@ -150,7 +153,7 @@ MUTANTS: List[Tuple[str, List[Tuple[str, str, str]], List[Tuple[str, str]]]] = [
     ('ex1-validation-after-manager', [(D, "        self._start_runtime_validation()\n\n        run_manager = self.run_manager(dag=self, ctx=ctx)", "        run_manager = self.run_manager(dag=self, ctx=ctx)")], [('C17', 'EX-1')]),
     ('ex2-tuple-order-swapped', [(B, "        return is_process_pool_needed, is_thread_pool_needed", "        return is_thread_pool_needed, is_process_pool_needed")], [('C17', 'EX-2')]),
     ('ex4-shutdown-ignored', [(TH, "        if not self._pool_executor or self._pool_executor._shutdown:", "        if not self._pool_executor:")], [('C17', 'EX-4')]),
-    ('ex5-kwargs-dropped-in-executor', [(N, "functools.partial(run_method, *args, **kwargs),", "functools.partial(run_method, *args),")], [('C17', 'EX-5')]),
+    ('ex5-kwargs-dropped-in-executor', [(N, "functools.partial(_run_in_executor, run_method, *args, **kwargs),", "functools.partial(_run_in_executor, run_method, *args),")], [('C17', 'EX-5')]),
     ('fs1-always-binary', [(F, "        mode, encoding = ('wb', None) if serializer.is_binary else ('w', 'utf-8')", "        mode, encoding = ('wb', None)")], [('C18', 'FS-1')]),
     ('fs2-no-rollback', [(F, "            path.unlink(missing_ok=True)\n", "")], [('C18', 'FS-2')]),
     ('fs3-glob-lookup', [(F, "        paths = [directory / f'{node_id}.{fmt.value}' for fmt in DataFormat]\n\n        return [path for path in paths if path.is_file()]", "        return list(directory.glob(f'{node_id}.*'))")], [('C18', 'FS-3')]),
@@ -180,6 +183,29 @@ MUTANTS: List[Tuple[str, List[Tuple[str, str, str]], List[Tuple[str, str]]]] = [
     ('ev2-complete-after-cancel', [(M, "            await self.ctx.emit_on_node_complete(node_id=node_id, error=None)\n\n            logger.info('Getting the result after the execution, node_id=%s', node_id)\n            return result\n\n        except Exception as ex:", "            logger.info('Getting the result after the execution, node_id=%s', node_id)\n            return result\n\n        except BaseException as ex:")], [('C14', 'EV-2')]),
     ('oo6-gate-scans-subset', [(M, "            if dag.is_oneof and self.__has_subgraph_error(dag):", "            if dag.is_oneof and self.__has_subgraph_error(dag.subgraph(list_node_ids)):")], [('C10', 'OO-6')]),
     ('vw6-partial-enum', [(V, "                node_type = node.node_type.value if isinstance(node.node_type, NodeType) else node.node_type", "                node_type = NodeType(node.node_type).value")], [('C20', 'VW-6')]),
+    # ---- guards of the fixes F42 - F51 (DESIGN 9.10): each fix reverted
+    ('f42-id-before-class-check', [(B, "        self._check_base_class(node)\n        self._node_map[get_node_id(node)] = node", "        self._node_map[get_node_id(node)] = node")], [('C16', 'VL-8')]),
+    ('f42-recurrent-start-unchecked', [(B, "                    self._check_base_class(input_mark.start_node)\n", "")], [('C16', 'VL-8')]),
+    ('f42-oneof-ids-before-registration', [(B, "                    for node in input_mark.nodes:\n                        self._add_node_to_map(node)\n\n", "")], [('C16', 'VL-8')]),
+    ('f43-single-path-not-validated', [(B, "            self.validate_node(input_node)\n            self._get_input_marks_map(input_node)\n", "")], [('C16', 'VL-9')]),
+    ('f43-single-path-no-generic-check', [(B, "            self.validate_node(input_node)\n            self._get_input_marks_map(input_node)\n", "            self.validate_node(input_node)\n")], [('C16', 'VL-9')]),
+    ('f44-exempt-by-name', [(B, "            if parameter.kind not in (parameter.VAR_POSITIONAL, parameter.VAR_KEYWORD)\n", "            if name not in ('self', 'args', 'kwargs')\n")], [('C16', 'VL-7')]),
+    ('f45-non-async-demands-pool', [(B, "            if NodeTag.non_async in tags:\n                continue\n\n", "")], [('C17', 'EX-7')]),
+    ('f46-same-node-empty-graph', [(B, "            self._dag.add_node(get_node_id(output_node))\n", "")], [('C15', 'BD-9')]),
+    ('f47-one-level-unwrap', [(V, "        while getattr(node, '__generic_class__', None) is not None:\n", "        if getattr(node, '__generic_class__', None) is not None:\n")], [('C20', 'VW-7')]),
+    ('f48-wrapper-keeps-own-name', [(N, "    class_method.__name__ = 'process'\n", "")], [('C17', 'BN-1')]),
+    ('f49-wrapper-without-doc', [(N, "    class_method.__doc__ = process_method.__doc__\n", "")], [('C20', 'BN-2')]),
+    ('f50-registry-is-a-set', [(M, "    _coro_tasks: t.List[asyncio.Task] = field(default_factory=list)", "    _coro_tasks: t.Set[asyncio.Task] = field(default_factory=set)"),
+                               (M, "        self._coro_tasks.append(task)", "        self._coro_tasks.add(task)")], [('C07', 'ER-8'), ('C05', 'ER-8')]),
+    ('f51-view-renames-root-graph', [(G, "    subgraph.graph = {\n        **dag.graph,\n        'name': f'{source} —> {dest}, rec={is_recurrent}, oneof={is_oneof}, nested_oneof={is_nested_oneof}',\n    }\n",
+                                      "    subgraph.name = f'{source} —> {dest}, rec={is_recurrent}, oneof={is_oneof}, nested_oneof={is_nested_oneof}'\n")], [('C07', 'SH-1'), ('C08', 'SH-1')]),
+    ('f51-view-attribute-dict-written', [(G, "    subgraph.graph = {\n        **dag.graph,\n        'name': f'{source} —> {dest}, rec={is_recurrent}, oneof={is_oneof}, nested_oneof={is_nested_oneof}',\n    }\n",
+                                          "    subgraph.graph['name'] = f'{source} —> {dest}'\n")], [('C07', 'SH-1')]),
+    ('bd9-oneof-candidates-reversed', [(B, "                    node_id_list = [get_node_id(node) for node in input_mark.nodes]\n", "                    node_id_list = [get_node_id(node) for node in reversed(input_mark.nodes)]\n")], [('C15', 'BD-9')]),
+    ('bd9-implicit-link-for-marked-node', [(B, "            if not input_marks_map and input_node != current_node:", "            if input_node != current_node:")], [('C15', 'BD-9')]),
+    ('bd9-recurrent-iterations-dropped', [(B, "                            NodeField.max_iterations: input_mark.max_iterations,\n", "")], [('C15', 'BD-9')]),
+    ('bd9-switch-decider-not-visited', [(B, "                    self._add_switch_node(switch_node_id, get_node_id(input_mark.switch))\n                    _set_visited(input_mark.switch)\n", "                    self._add_switch_node(switch_node_id, get_node_id(input_mark.switch))\n")], [('C15', 'BD-9')]),
+    ('vl10-valid-recurrent-rejected', [(B, "                if isinstance(input_mark, RecurrentSubGraphMark):\n                    self._check_base_class(input_mark.start_node)\n", "                if isinstance(input_mark, RecurrentSubGraphMark):\n                    self._check_base_class(input_mark.max_iterations)\n")], [('C16', 'VL-10')]),
 ]
 
 ALL_PROPS = [f'C{n:02d}' for n in range(2, 21)]
@@ -227,13 +253,25 @@ BENIGN: List[Tuple[str, List[Tuple[str, str, str, bool]]]] = [
     ('node-order-with-filter', [(M, "        return [\n            node_id for node_id in nx.topological_sort(dag)\n            if (\n                not self._node_storage.exists_processed_node(node_id)\n                if not dag.is_recurrent\n                else True\n            )\n        ]",
                                   "        return list(filter(\n            lambda node_id: dag.is_recurrent or not self._node_storage.exists_processed_node(node_id),\n            nx.topological_sort(dag),\n        ))", False)]),
     ('ensure-future', [(M, "task = asyncio.create_task(coro, name=name)", "task = asyncio.ensure_future(coro)", False)]),
-    ('tasks-in-a-list', [(M, "    _coro_tasks: t.Set[asyncio.Task] = field(default_factory=set)", "    _coro_tasks: t.List[asyncio.Task] = field(default_factory=list)", False),
-                         (M, "        self._coro_tasks.add(task)", "        self._coro_tasks.append(task)", False)]),
+    ('tasks-in-a-dict', [(M, "    _coro_tasks: t.List[asyncio.Task] = field(default_factory=list)", "    _coro_tasks: t.Dict[asyncio.Task, None] = field(default_factory=dict)", False),
+                         (M, "        self._coro_tasks.append(task)", "        self._coro_tasks[task] = None", False)]),
     ('switch-notify-without-finally', [(M, "        try:\n            return await self._run_dag(\n                dag=self._get_reduced_dag(\n                    self.dag.input_node,\n                    (self._node_storage.get_switch_result(node_id)).node_id,\n                    is_oneof=dag.is_oneof,\n                ),\n            )\n        finally:\n            # The selected case may have been computed for another consumer already. In that case nothing\n            # is executed here, so the consumers of the switch have to be notified explicitly.\n            await self.__unlock_descendants(node_id)",
                                          "        outcome = await self._run_dag(\n            dag=self._get_reduced_dag(\n                self.dag.input_node,\n                (self._node_storage.get_switch_result(node_id)).node_id,\n                is_oneof=dag.is_oneof,\n            ),\n        )\n        await self.__unlock_descendants(node_id)\n        return outcome", False)]),
     ('storage-exists-via-contains', [(S, "        return key in self\n", "        return self.data.__contains__(key)\n", False)]),
     ('redundant-visited-guard', [(B, "                    _set_visited(input_mark.node)\n", "                    if input_mark.node not in visited:\n                        _set_visited(input_mark.node)\n", False)]),
     ('dag-run-inline-validation', [(D, "        self._start_runtime_validation()\n", "        self._validate_pool_executors()\n", False)]),
+    ('view-own-dict-then-name', [(G, "    return subgraph\n", "    subgraph.name = subgraph.graph['name']\n\n    return subgraph\n", False)]),
+    ('kinds-via-inspect-parameter', [(B, "            if parameter.kind not in (parameter.VAR_POSITIONAL, parameter.VAR_KEYWORD)\n", "            if parameter.kind not in (inspect.Parameter.VAR_POSITIONAL, inspect.Parameter.VAR_KEYWORD)\n", False)]),
+    ('wrapper-attributes-set-after-type', [(N, "    class_method.__name__ = 'process'\n    class_method.__doc__ = process_method.__doc__\n\n", "", False),
+                                           (N, "    method = created_node.process\n", "    method = created_node.process\n    method.__name__ = 'process'\n    method.__doc__ = process_method.__doc__\n", False)]),
+    ('single-path-validation-outlined', [(B, "            self.validate_node(input_node)\n            self._get_input_marks_map(input_node)\n", "            self._validate_single(input_node)\n", False),
+                                         (B, "    def _is_executor_needed(self)", "    def _validate_single(self, node: NodeBase) -> None:\n        self.validate_node(node)\n        self._get_input_marks_map(node)\n\n    def _is_executor_needed(self)", False)]),
+    ('class-check-at-call-sites', [(B, "        self._check_base_class(node)\n        self._node_map[get_node_id(node)] = node", "        self.__register(node)", False),
+                                   (B, "    def _add_node_pair_to_dag(self", "    def __register(self, node: NodeBase) -> None:\n        self._check_base_class(node)\n        node_id = get_node_id(node)\n        self._node_map[node_id] = node\n\n    def _add_node_pair_to_dag(self", False)]),
+    ('class-check-inlined-in-registration', [(B, "        self._check_base_class(node)\n        self._node_map[get_node_id(node)] = node", "        if not inspect.isclass(node):\n            raise errors.IncorrectTypeClass(f'{node} должен быть классом')\n        self._check_base_class(node)\n        self._node_map[get_node_id(node)] = node", False)]),
+    ('registry-deque', [(M, "    _coro_tasks: t.List[asyncio.Task] = field(default_factory=list)", "    _coro_tasks: t.Deque[asyncio.Task] = field(default_factory=deque)", False),
+                        (M, "import asyncio\n", "import asyncio\nfrom collections import deque\n", False)]),
+    ('unwrap-generic-chain-recursively', [(V, "        while getattr(node, '__generic_class__', None) is not None:\n            node = node.__generic_class__\n\n        file_path", "        generic_class = getattr(node, '__generic_class__', None)\n        if generic_class is not None:\n            return GraphConfigImpl._get_node_relative_path(generic_class)\n\n        file_path", False)]),
 ]
 
 
@@ -259,6 +297,38 @@ REPAIRS: List[Tuple[str, List[Tuple[str, str, str]], List[Tuple[str, str, str]]]
     ('repair-er7-record-cancelled', [(M, "            coro_task.cancel()\n            logger.debug('Task %s has been cancelled', coro_task.get_name())",
                                      "            coro_task.cancel()\n            _ENGINE_CANCELLED.registry.add(coro_task)\n            logger.debug('Task %s has been cancelled', coro_task.get_name())")],
      [('C05', 'ER-7', 'ended cancelled')]),
+    # ---- second hunt batch (DESIGN 9.10): a repaired variant for every recorded finding that has one
+    ('repair-bd10-reject-id-collision', [(B, "        self._check_base_class(node)\n        self._node_map[get_node_id(node)] = node",
+                                          "        self._check_base_class(node)\n        if self._node_map.get(get_node_id(node), node) is not node:\n            raise ValueError(f'two node classes share the id {get_node_id(node)}')\n        self._node_map[get_node_id(node)] = node")],
+     [('C15', 'BD-10', 'node-id-collision')]),
+    ('repair-bd11-reject-switch-name-collision', [(B, "                    self._add_node_to_map(input_mark.switch)\n                    self._add_switch_node(",
+                                                   "                    self._add_node_to_map(input_mark.switch)\n                    if switch_node_id in self._dag and get_node_id(input_mark.switch) not in self._dag.predecessors(switch_node_id):\n                        raise ValueError(f'two switches are called {input_mark.name}')\n                    self._add_switch_node(")],
+     [('C15', 'BD-11', 'switch-name-collision')]),
+    ('repair-bd12-reject-string-annotation', [(B, "            if not isinstance(annotation, (InputMark, SwitchCaseMark, InputOneOfMark, RecurrentSubGraphMark)):\n                continue",
+                                               "            if isinstance(annotation, str):\n                raise errors.UndefinedParamAnnotation(f'string annotation {name}')\n\n            if not isinstance(annotation, (InputMark, SwitchCaseMark, InputOneOfMark, RecurrentSubGraphMark)):\n                continue")],
+     [('C16', 'BD-12', 'string-annotation')]),
+    ('repair-bn3-wrapper-annotations', [(N, "    class_method.__name__ = 'process'\n", "    class_method.__name__ = 'process'\n    class_method.__annotations__ = dict(process_method.__annotations__)\n")],
+     [('C15', 'BN-3', 'wrapper-annotations')]),
+    ('repair-vw8-structured-edge-id', [(SC, "        self.id = f'{self.source}->{self.target}'", "        self.id = json.dumps([self.source, self.target])"),
+                                       (SC, "from dataclasses import asdict\n", "import json\nfrom dataclasses import asdict\n")],
+     [('C20', 'VW-8', 'edge-id-injective')]),
+    ('repair-ex8-copy-context', [(N, "        result = await loop.run_in_executor(\n            executor,\n            functools.partial(_run_in_executor, run_method, *args, **kwargs),\n        )",
+                                  "        context = contextvars.copy_context()\n        result = await loop.run_in_executor(\n            executor,\n            functools.partial(context.run, _run_in_executor, run_method, *args, **kwargs),\n        )"),
+                                 (N, "import asyncio\n", "import asyncio\nimport contextvars\n")],
+     [('C17', 'EX-8', 'context-copied')]),
+    ('repair-ex9-replace-dead-pool', [(PB, "        if self._pool_executor:\n            logger.info(", "        if self._pool_executor:\n            try:\n                self.is_ready()\n            except RuntimeError:\n                self._pool_executor = None\n\n        if self._pool_executor:\n            logger.info(")],
+     [('C07', 'EX-9', 'pool-replaceable')]),
+    ('repair-ex10-forkserver', [(PP, "get_context('fork')", "get_context('forkserver')")], [('C08', 'EX-10', 'start-method')]),
+    ('repair-fs6-quote-key-parts', [(F, "        paths = [directory / f'{node_id}.{fmt.value}' for fmt in DataFormat]", "        paths = [directory / f'{quote(node_id, safe=\"\")}.{fmt.value}' for fmt in DataFormat]"),
+                                    (F, "        path = Path(self._ensure_dir() / f'{node_id}.{fmt.value}')", "        path = Path(self._ensure_dir() / f'{quote(node_id, safe=\"\")}.{fmt.value}')"),
+                                    (F, "        path = Path(self.artifact_dir / model_name / str(self.ctx.pipeline_id))", "        path = Path(self.artifact_dir / quote(model_name, safe='') / quote(str(self.ctx.pipeline_id), safe=''))"),
+                                    (F, "from pathlib import Path\n", "from pathlib import Path\nfrom urllib.parse import quote\n")],
+     [('C18', 'FS-6', 'one-component')]),
+    ('repair-as5-shield-save', [(M, "            await self.ctx.save_node_result(node_id, result)\n\n        finally:", "            await asyncio.shield(self.ctx.save_node_result(node_id, result))\n\n        finally:")],
+     [('C19', 'AS-5', 'save not cancellable')]),
+    ('repair-cc9-ancestors-descendants', [(G, "    subgraph: DiGraph = dag.subgraph({node_id for path in nx.all_simple_paths(dag, source, dest) for node_id in path})",
+                                           "    subgraph: DiGraph = dag.subgraph((nx.descendants(dag, source) | {source}) & (nx.ancestors(dag, dest) | {dest}))")],
+     [('C06', 'CC-9', 'path enumeration')]),
 ]
 
 
